@@ -268,6 +268,15 @@ func (ex *Exec) oblige(st *State, kind, label string, goal Term, tags []string, 
 	return o
 }
 
+// noteDep records that this function's proof used the assumed contract of a dependency.
+func (ex *Exec) noteDep(name string) {
+	ex.p.usedDeps[name] = true
+	if ex.p.fnDeps[ex.name] == nil {
+		ex.p.fnDeps[ex.name] = map[string]bool{}
+	}
+	ex.p.fnDeps[ex.name][name] = true
+}
+
 // effectiveTags: which properties an obligation counts for. Explicit clause
 // tags win; supporting obligations (invariants, asserts, splits, call-site
 // preconditions, safety) count for every property the function's ensures
